@@ -79,8 +79,39 @@ pub fn varint_len(v: u64) -> usize {
     }
 }
 
+thread_local! {
+    /// (state, per-mille): when set, `put_varint` encodes that share of the integers on the next
+    /// larger legal length. Non-shortest forms are valid everywhere in HTTP/3, so an endpoint
+    /// must not care; scenarios opt in while they compile their scripts.
+    static STRETCH: std::cell::Cell<Option<(u64, u32)>> = const { std::cell::Cell::new(None) };
+}
+
+/// Runs `f` with non-shortest varint encoding switched on for `pm` per mille of the integers.
+pub fn with_stretch<T>(seed: u64, pm: u32, f: impl FnOnce() -> T) -> T {
+    if pm == 0 {
+        return f();
+    }
+    STRETCH.with(|s| s.set(Some((seed | 1, pm))));
+    let r = f();
+    STRETCH.with(|s| s.set(None));
+    r
+}
+
 pub fn put_varint(v: u64, out: &mut Vec<u8>) {
-    put_varint_len(v, varint_len(v), out)
+    let mut len = varint_len(v);
+    STRETCH.with(|s| {
+        if let Some((mut st, pm)) = s.get() {
+            let r = crate::rng::splitmix(&mut st);
+            s.set(Some((st, pm)));
+            if len < 8 && (r % 1000) < pm as u64 {
+                len *= 2;
+                if len == 2 && (r >> 20) % 3 == 0 {
+                    len = 4;
+                }
+            }
+        }
+    });
+    put_varint_len(v, len, out)
 }
 
 /// Encodes `v` on exactly `len` bytes (1, 2, 4 or 8); non-shortest forms are legal on the
